@@ -175,11 +175,6 @@ func (p persistence) SaveFanPwmMap(fanId string, pwmMap map[int]int) (err error)
 
 	key := fanId
 
-	// convert the curve data moving window to a map to arrays, so we can persist them
-	for key, value := range pwmMap {
-		pwmMap[key] = value
-	}
-
 	data, err := json.Marshal(pwmMap)
 	if err != nil {
 		return err
